@@ -614,7 +614,7 @@ class Node:
         if isinstance(child, self._tree.__class__):
             if deep is None:
                 deep = True
-            topnodes = child._root.children
+            topnodes = child._root.children.copy()
             if before is not None and before is not False:
                 topnodes.reverse()
             for n in topnodes:
